@@ -61,6 +61,10 @@ type Check struct {
 	RaceFiles []string
 	// Parallel is the number of cases a child runs concurrently (default 1).
 	Parallel int
+	// Race: children run from the -race build (bin/vcheck-race).
+	Race bool
+	// NeedsBins: the check drives the real binaries (bin/nokv, bin/nokv-redis, bin/nokv-config).
+	NeedsBins bool
 }
 
 var registry = map[string]*Check{}
@@ -487,6 +491,7 @@ func ParentMain(id, tier string, seed int64, childBin string) int {
 		}(s)
 	}
 	crashed := 0
+	var slow [][2]int64
 	for i := 0; i < procs; i++ {
 		r := <-results
 		started := map[int]bool{}
@@ -506,6 +511,7 @@ func ParentMain(id, tier string, seed int64, childBin string) int {
 				case "end":
 					delete(started, ev.Case)
 					agg.CasesEnded++
+					slow = append(slow, [2]int64{ev.WallMs, int64(ev.Case)})
 					for k, v := range ev.Counts {
 						agg.Counts[k] += v
 					}
@@ -567,6 +573,11 @@ func ParentMain(id, tier string, seed int64, childBin string) int {
 			}
 		}
 	}
+	sort.Slice(slow, func(i, j int) bool { return slow[i][0] > slow[j][0] })
+	if len(slow) > 5 {
+		slow = slow[:5]
+	}
+	agg.Extra["slowest_cases_ms_idx"] = slow
 	agg.Extra["child_processes"] = procs
 	agg.Extra["children_died"] = crashed
 	races := collectRaces(scratch, ch)
@@ -618,6 +629,11 @@ func finish(agg *Agg, planned int, start time.Time) int {
 		unknown = append(unknown, v)
 	}
 	_ = os.MkdirAll(filepath.Join(VerifRoot, "replays"), 0o755)
+	if old, _ := filepath.Glob(filepath.Join(VerifRoot, "replays", ch.ID+"-seed*")); len(old) > 0 {
+		for _, f := range old {
+			_ = os.Remove(f)
+		}
+	}
 	_ = os.MkdirAll(filepath.Join(VerifRoot, "evidence"), 0o755)
 	seenSig := map[string]int{}
 	for _, v := range unknown {
